@@ -388,7 +388,7 @@ def commands(draw, layout, cc_name=None, sessions="any", decrypt=None, big=False
 
 
 @st.composite
-def responses(draw, layout, cc_name=None, sessions="any", enc=None, failed=None, big=False, rare=True):
+def responses(draw, layout, cc_name=None, sessions="any", enc=None, failed=None, big=False, rare=True, unknown_cc=True):
     ch = HypChooser(draw)
     if cc_name is None:
         cc_name = ch.choice(sorted(layout.commands))
@@ -400,7 +400,12 @@ def responses(draw, layout, cc_name=None, sessions="any", enc=None, failed=None,
     b = Builder(layout, ch, big, rare)
     toks, meta = b.response(cc_name, n, enc=enc, failed=failed)
     meta.update(b.meta())
-    return Case("Response", toks, layout, cc=layout.commands[cc_name]["code"], enc=meta["encrypt"], meta=meta)
+    cc = layout.commands[cc_name]["code"]
+    if failed and unknown_cc and ch.chance(1, 4):
+        # the (header-only) answer to a command the decoder has no layout for, e.g. TPM_RC_COMMAND_CODE to a vendor command
+        cc = ch.choice([c for c in (0x15A, 0x199, 0x11E, 0x20000001, 0x7FFFFFFF) if c not in layout.cc_by_code])
+        meta["unknown_cc"] = True
+    return Case("Response", toks, layout, cc=cc, enc=meta["encrypt"], meta=meta)
 
 
 @st.composite
@@ -472,37 +477,66 @@ def reachable_arms(layout):
 
 
 @st.composite
-def long_streams(draw, layout, min_pairs=150, max_pairs=320):
-    """A long stream of small command/response pairs (hundreds of messages, thousands of list events in one stream)."""
+def long_streams(draw, layout, min_pairs=200, max_pairs=340):
+    """A long stream (hundreds of messages, thousands of list events in one stream): a few hypothesis-drawn small
+    command/response pairs, cycled (drawing every pair separately would exceed hypothesis' entropy budget)."""
     ch = HypChooser(draw)
-    n = ch.int(min_pairs, max_pairs)
-    small = [c for c in ("Startup", "GetRandom", "SelfTest", "StirRandom", "FlushContext", "ReadClock", "PCR_Reset") if c in layout.commands]
+    n = max_pairs - ch.int(0, max_pairs - min_pairs)  # hypothesis' first (minimal) example is the longest stream
+    small = [c for c in ("GetRandom", "StirRandom", "Startup", "SelfTest", "FlushContext", "ReadClock", "PCR_Reset") if c in layout.commands]
     b = Builder(layout, ch, big=False, rare=False)
-    toks, msgs = [], []
-    for i in range(n):
+    pairs = []
+    for _ in range(ch.int(3, 6)):
         cc_name = ch.choice(small)
-        ns = ch.choice([None, 1, 1, 2])
+        ns = ch.choice([2, 1, 1, None])
         ctoks, cmeta = b.command(cc_name, ns)
-        msgs.append({"kind": "Command", "cc_name": cc_name, "cc": layout.commands[cc_name]["code"], "first_token": len(toks), "n_tokens": len(ctoks), "sessions": ns, "encrypt": cmeta["encrypt"], "decrypt": cmeta["decrypt"]})
-        toks += ctoks
         failed = ch.chance(1, 8)
         rtoks, rmeta = b.response(cc_name, ns if not failed else None, enc=cmeta["encrypt"], failed=failed)
+        pairs.append((cc_name, ns, ctoks, cmeta, rtoks, failed))
+    toks, msgs = [], []
+    for i in range(n):
+        cc_name, ns, ctoks, cmeta, rtoks, failed = pairs[i % len(pairs)]
+        msgs.append({"kind": "Command", "cc_name": cc_name, "cc": layout.commands[cc_name]["code"], "first_token": len(toks), "n_tokens": len(ctoks), "sessions": ns, "encrypt": cmeta["encrypt"], "decrypt": cmeta["decrypt"]})
+        toks += [list(t) for t in ctoks]
         msgs.append({"kind": "Response", "cc_name": cc_name, "cc": layout.commands[cc_name]["code"], "first_token": len(toks), "n_tokens": len(rtoks), "sessions": ns, "failed": failed, "enc": cmeta["encrypt"]})
-        toks += rtoks
+        toks += [list(t) for t in rtoks]
     meta = b.meta()
     meta["messages"] = msgs
     return Case("CommandResponseStream", toks, layout, meta=meta)
 
 
-LONG_LIST_TYPES = [("TPML_PCR_SELECTION", "count"), ("TPML_DIGEST", "count"), ("TPML_HANDLE", "count"), ("TPML_ALG_PROPERTY", "count"), ("TPML_TAGGED_TPM_PROPERTY", "count")]
+LONG_LIST_TYPES = ["TPML_PCR_SELECTION", "TPML_DIGEST", "TPML_HANDLE", "TPML_ALG_PROPERTY", "TPML_TAGGED_TPM_PROPERTY"]
 
 
 @st.composite
 def long_lists(draw, layout):
-    """A counted list with around a thousand elements (several thousand events, thousands of nested lists)."""
+    """A counted list with around a thousand elements (several thousand events, thousands of nested lists): three
+    hypothesis-drawn elements, cycled."""
     ch = HypChooser(draw)
-    tname, field = ch.choice([t for t in LONG_LIST_TYPES if t[0] in layout.snap["structs"]])
-    n = ch.choice([260, 520, 1000, 1100, 1300])
+    tname = ch.choice([t for t in LONG_LIST_TYPES if t in layout.snap["structs"]])
+    n = ch.choice([1300, 1100, 1000, 520, 260])  # hypothesis' first (minimal) example is the longest list
+    (cname, ctype), (lname, ltype) = layout.struct(tname)["fields"]
     b = Builder(layout, ch, big=False, rare=False)
-    toks = b.struct(tname, "", 3, overrides={field: n})
-    return Case(tname, toks, layout, meta=b.meta())
+    templates = [b.build(list_elem(ltype), f".{lname}[{j}]", 3) for j in range(3)]
+    toks = [["", tname, ELLIPSIS], [f".{cname}", ctype, n], [f".{lname}", ltype, ELLIPSIS]]
+    for i in range(n):
+        j = i % 3
+        prefix = f".{lname}[{j}]"
+        toks += [[f".{lname}[{i}]" + p[len(prefix) :], t, v] for p, t, v in templates[j]]
+    meta = b.meta()
+    meta["lists"] = sorted(set(meta.get("lists", [])) | {(ltype, n)})
+    return Case(tname, toks, layout, meta=meta)
+
+
+def huge_cases(layout):
+    """Deterministic well-formed encodings with very long buffers / lists (lengths around 4096, 8192 and the UINT16 limit)."""
+    out = []
+    for n in (4095, 4096, 4097, 8191, 8192, 8193, 65535):
+        toks = [["", "TPM2B_MAX_BUFFER", ELLIPSIS], [".size", "UINT16", n], [".buffer", "list[BYTE]", ELLIPSIS]]
+        toks += [[f".buffer[{i}]", "BYTE", (i * 7 + n) & 0xFF] for i in range(n)]
+        out.append(Case("TPM2B_MAX_BUFFER", toks, layout, meta={"lists": [("list[BYTE]", n)], "flags": ["huge"]}))
+    for n in (4097, 8193):
+        algs = [v for lo, hi in layout.allowed("TPM_ALG_ID") for v in range(lo, hi + 1)]
+        toks = [["", "TPML_ALG", ELLIPSIS], [".count", "UINT32", n], [".algorithms", "list[TPM_ALG_ID]", ELLIPSIS]]
+        toks += [[f".algorithms[{i}]", "TPM_ALG_ID", algs[i % len(algs)]] for i in range(n)]
+        out.append(Case("TPML_ALG", toks, layout, meta={"lists": [("list[TPM_ALG_ID]", n)], "flags": ["huge"]}))
+    return out
